@@ -107,7 +107,7 @@ def same_numbers(a, b):
 
 
 def run(tier, seed, replay=None):
-    chk = core.Check("C02", tier, seed, "differential")
+    chk = core.Check("C02", tier, seed, "translation_validation")
     env = Env()
     env.build_all()
     rnd = random.Random(seed)
